@@ -575,5 +575,42 @@ theorem noEpClash {T : Tables} (hT : TablesOK T) {b : Board} (hs : Struct b) (hv
     (ic : Bool) : Entries.NoEpClash T b ic :=
   Entries.noEpClash_of_pseudo T b (fun q src hq hsrc => noEpClash_pseudo hT hs hv q src hq hsrc) ic
 
+/-! ### variants for the assembly -/
+
+/-- under `epValid` a pseudo-legal en-passant capture carries no promotion -/
+theorem ep_promo_none {T : Tables} (hT : TablesOK T) {b : Board} (hs : Struct b) (hv : epValid b.abs = true)
+    {m : Move} (hpl : pseudoLegal b.abs m = true) (hep : isEnPassant b.abs m = true) : m.promo = none := by
+  obtain ⟨_, _, _, _, _, q, _, f7, _⟩ := ep_move_facts hpl hep
+  exact ((ep_source_iff hT hs hv (show b.ep = some q from f7) m).mpr ⟨hpl, hep⟩).2.2
+
+/-- `legalEpMove_iff` without the hypothesis on the promotion field -/
+theorem legalEpMove_iff' {T : Tables} (hT : TablesOK T) {b : Board} (hs : Struct b) (h1 : KingMoves.OneKing b)
+    (hv : epValid b.abs = true) {m : Move} (hpl : pseudoLegal b.abs m = true)
+    (hep : isEnPassant b.abs m = true) :
+    MoveGen.legalEpMove T b m.src m.dst = some true ↔ legal b.abs m = true :=
+  legalEpMove_iff hT hs h1 hv (ep_promo_none hT hs hv hpl hep) hpl hep
+
+/-- the en-passant disjunct of `Entries.IsMove` is "legal and an en-passant capture" -/
+theorem ep_section_iff {T : Tables} (hT : TablesOK T) {b : Board} (hs : Struct b) (h1 : KingMoves.OneKing b)
+    (hv : epValid b.abs = true) (m : Move) :
+    (∃ epSq : Sq, b.ep = some epSq ∧ (Entries.epSources T b epSq).getLsbD m.src.val = true ∧
+        MoveGen.legalEpMove T b m.src (Entries.epDest b epSq) = some true ∧
+        m.dst = Entries.epDest b epSq ∧ m.promo = none) ↔
+      (legal b.abs m = true ∧ isEnPassant b.abs m = true) := by
+  constructor
+  · rintro ⟨q, hq, h⟩
+    exact (ep_entry_iff hT hs h1 hv hq m).mp h
+  · rintro ⟨hl, hep⟩
+    obtain ⟨_, _, _, _, _, q, _, f7, _⟩ := ep_move_facts (Closure.legal_pseudo hl) hep
+    exact ⟨q, f7, (ep_entry_iff hT hs h1 hv (show b.ep = some q from f7) m).mpr ⟨hl, hep⟩⟩
+
+/-- `leapers_do_not_check` on a `Valid` position, with the king found by `kingSq?` -/
+theorem leapers_do_not_check_valid {p : Pos} (hv : Valid p = true) {q k : Sq} (hq : p.ep = some q)
+    (hk : kingSq? p p.stm = some k) {x : Sq} (hx : p.colorAt x = some p.stm.other)
+    (hl : leaperAtt (p.board x) x k = true) : x = q := by
+  have hV := (Closure.valid_iff p).mp hv
+  obtain ⟨mid, org, hf⟩ := epFacts_of_epValid hV.ep hq
+  exact leapers_do_not_check hf (PinCheck.KingAt_of_count hk (hV.king p.stm)) hx hl
+
 end EnPassant
 end Chess
